@@ -615,8 +615,9 @@ GROUPS["solver_log_t2"] = dict(GROUPS["cnf_parser_t2"], **{
     "overlay": [("flussab-cnf/src/token.rs", "stub", "harness/cnf/token_stub.rs"),
                 ("flussab-cnf/src/sat_solver_log.rs", "log", "harness/cnf/solver_log_t2.rs")],
     "inject": _stub_injects("flussab-cnf/src/token.rs", _CNF_TOKEN_SPECS),
-    "flags": ["--default-unwind", "8"],
+    "flags": ["--default-unwind", "4"],
     "rss_gb": 20,
+    "timeout": {"quick": 1000, "thorough": 3600},
     "harnesses": [
         ("parse_log_i8", {"props": ["C06", "C04", "C05", "C07"], "cost": 8, "what": "parse_log dispatcher: complete only at the clean end of a healthy source, assignment literals non-zero and in range, terminating 0 required"}),
         ("reach_parse_log", {"kind": "reach", "tiers": T, "cost": 8, "what": "vacuity twin"}),
@@ -869,3 +870,11 @@ PROPERTIES["C03"] = {
 NOT_APPLICABLE = {
     "C12": "AIG renumbering is one explicit-stack DFS over std HashMaps with no smaller unit; Kani does not finish symbolic execution even for a 1-gate circuit (>15 min, see DESIGN.md section 1 and C12); a MIR executor is out of reach of this task. Not switching technique.",
 }
+
+# A harness tagged with a property always runs in that property's check: derive the group lists
+# from the tags, so that a group cannot be forgotten.
+for _gname, _g in GROUPS.items():
+    for _n, _spec in _g["harnesses"]:
+        for _pid in _spec.get("props", []):
+            if _pid in PROPERTIES and _gname not in PROPERTIES[_pid]["groups"]:
+                PROPERTIES[_pid]["groups"].append(_gname)
